@@ -371,7 +371,7 @@ var validTexts = map[string][]string{
 	"uu":    {"00000000-0000-0000-0000-000000000001", "urn:uuid:123e4567-e89b-12d3-a456-426614174000", "URN:uuid:123E4567-E89B-12D3-A456-426614174000", "Urn:uuid:ffffffff-ffff-4fff-bfff-fffffffffff0", "123E4567-E89B-12D3-A456-426614174000", "ffffffff-ffff-4fff-bfff-ffffffffffff"},
 }
 
-var sizeJSON = []string{"007", "00", "0123", " 007", "-0", "+7", "0x7", "7.0", "7e0",
+var sizeJSON = []string{"1\xa05", "10 \u00b5B", "1\u00a9", "1\xc25", "1\xc2\xa05", "1&nbsp;KiB", "1 &#75;iB", "007", "00", "0123", " 007", "-0", "+7", "0x7", "7.0", "7e0",
 	`"\x31KiB"`, `"\061"`, `"\x31\x30"`, `"\a"`, `"1\v"`, `"\U00000031 kB"`, `'1'`, `"1\u0020kB"`, `"\u0031\u0030"`,
 	`"7" "8"`, `"7" x`, `7 8`, `"7"`, `"7 B"`, `{"value":7,"unit":"B"} 8`, `10`, `"20 KiB"`, `{"value":1,"unit":"KiB"}`, `{"unit":"MB","value":3,"x":[1,{"y":null}]}`, ` {"value":5,"unit":"B"} `, `"1_000"`, `18446744073709551615`,
 	`{"value":1}`, `{"value":1,"unit":"KiB"`, `{"value":1,"unit":"KiB"}}`, `10 x`, `"1 kB" 2`, `{"value":-1,"unit":"B"}`, `{"value":"1","unit":"B"}`, `[1]`, `null`, `true`, `1.5`, `"x"`, `{"value":1,"unit":"KiB","value":2}`, `{"value":18446744073709551615,"unit":"kB"}`}
